@@ -274,7 +274,58 @@ func installCommon(c *Ctx) {
 		c.mapUpdate(m, a[1], a[2])
 		return nil
 	}
+	// sync.Pool: a bag of items per pool. Get may hand out any item that was Put
+	// (here: the most recent one) or a fresh one from New — a free choice, since
+	// the runtime may drop pooled items at any time. Put happens-before the Get
+	// that returns the item.
+	in["(*sync.Pool).Put"] = func(c *Ctx, a []Value) Value {
+		p := a[0].(*Ptr)
+		if c.pools == nil {
+			c.pools = map[*Value][]pooled{}
+		}
+		it := pooled{v: a[1]}
+		if c.sched != nil {
+			me := c.sched.me()
+			it.vc = append([]int{}, me.vc...)
+			me.vc[me.id]++
+		}
+		c.syncPoint()
+		c.pools[p.slot] = append(c.pools[p.slot], it)
+		return nil
+	}
+	in["(*sync.Pool).Get"] = func(c *Ctx, a []Value) Value {
+		p := a[0].(*Ptr)
+		c.syncPoint()
+		items := c.pools[p.slot]
+		if len(items) > 0 && c.chooseFree(2) == 0 {
+			it := items[len(items)-1]
+			c.pools[p.slot] = items[:len(items)-1]
+			if c.sched != nil && it.vc != nil {
+				me := c.sched.me()
+				me.vc = vcMax(me.vc, it.vc)
+			}
+			return it.v
+		}
+		// New
+		st, _ := c.curCallee.Signature.Recv().Type().(*types.Pointer).Elem().Underlying().(*types.Struct)
+		sv, _ := (*p.slot).(*Struct)
+		if st != nil && sv != nil {
+			for i := 0; i < st.NumFields(); i++ {
+				if st.Field(i).Name() == "New" {
+					if cl, ok := sv.f[i].(*Closure); ok && cl != nil {
+						return c.invoke(cl, nil)
+					}
+				}
+			}
+		}
+		return Iface{}
+	}
 	in["github.com/pentops/j5/internal/bcl/errpos.AddSource"] = func(c *Ctx, a []Value) Value { return a[0] }
+}
+
+type pooled struct {
+	v  Value
+	vc []int
 }
 
 var _ = big.NewInt
